@@ -71,6 +71,8 @@ def classify(c):
         x = next(x for x in models[mm]["measures"] if x["name"] == ref.split(".")[1])
         if x["filters"] and x["agg"] in ("count", "avg") and others:
             return "F26-filtered-symmetric-count"
+        if x["filters"] and x["agg"] == "sum" and others:
+            return "F2-null-measure-symmetric"      # the metric filter NULLs the measure of the rows it excludes
     return None
 
 
@@ -109,7 +111,7 @@ def evaluate(ck, cases, reals, stats, label="C02"):
         rrows = c01.canon_rows(r["rows"], sq)
         mrows = [tuple(x) for x in S.lean_rows(a["rows"])]
         key = classify(c)
-        nullsym = a.get("symmetric") and key == "F2-null-measure-symmetric"
+        nullsym = a.get("symmetric") and key in ("F2-null-measure-symmetric", "F26-filtered-symmetric-count")   # a metric filter NULLs the measure the same way
         if r["columns"] != a["columns"] or (not nullsym and not c01.bag_equal(rrows, mrows)):
             disagree += 1
             if disagree <= 4:
